@@ -505,6 +505,8 @@ def gen_config(rng, tbl, max_ctx=4, max_tests=3, window_layout=None, fault_kinds
             mod, test, gen = rng.pick((("qartod", "gross_range_test", p_gross_range), ("qartod", "spike_test", p_spike), ("qartod", "sim_probe", p_probe), ("qartod", "climatology_test", p_clim)))
             entries.insert(rng.randint(0, len(entries)), {"sid": zname, "module": mod, "test": test, "params": gen(rng), "role": "healthy"})
         ctx = {"window": w, "entries": entries}
+        if w and (w.get("starting") is None or w.get("ending") is None) and rng.chance(0.4):
+            ctx["explicit_null"] = True
         if rng.chance(0.15):
             # a GeoJSON region: parsed into the Context but, as documented, it does not subset anything
             x, y = rng.randint(-100, 100), rng.randint(-60, 60)
